@@ -115,4 +115,53 @@ def pad (s pw : List Nat) : Option (List Nat) :=
     some ((List.range s.length).map (fun k => s.getD k 0 + pw.getD k 0 + pw.getD (s.length + k) 0))
   else none
 
+/-- length of the Python slice `start:stop:step` on an axis of extent `n`, for `0 ≤ start, stop ≤ n`, `step ≥ 1`
+    (absent entries default to `0`, `n`, `1`) -/
+def sliceLen (n : Nat) (start stop step : Option Nat) : Nat :=
+  let a := start.getD 0
+  let b := min (stop.getD n) n
+  let st := step.getD 1
+  if st = 0 then 0 else if b ≤ a then 0 else (b - a + st - 1) / st
+
+/-! ### views / evaluations over provenance data (`data[k] = start + k`, row-major) -/
+
+/-- element at multi-index `i` of the row-major array of shape `s` holding `start, start+1, …` -/
+def iotaAt (s : List Nat) (start : Nat) (i : List Nat) : Nat := start + computeOffset i (strides s)
+
+/-- an array value: shape and elements in row-major order -/
+abbrev ArrV := List Nat × List Nat
+
+def tabulate (r : List Nat) (f : List Nat → Nat) : ArrV := (r, (allIdx r).map f)
+
+/-- `np.transpose(x, axes)` -/
+def vTranspose (s : List Nat) (axes : Option (List Nat)) : Option ArrV := do
+  let r ← transpose s axes
+  let ax := axes.getD (List.range s.length).reverse
+  pure (tabulate r (fun o => iotaAt s 0 ((List.range s.length).map (fun j => o.getD (ax.idxOf j) 0))))
+
+/-- `np.reshape(x, newshape)` -/
+def vReshape (s : List Nat) (d : List Int) : Option ArrV :=
+  (reshape s d).map (fun r => (r, (List.range (prod s))))
+
+/-- `np.tile(x, reps)` -/
+def vTile (s reps : List Nat) : ArrV :=
+  let r := tile s reps
+  let off := r.length - s.length
+  tabulate r (fun o => iotaAt s 0 ((List.range s.length).map (fun j => o.getD (j + off) 0 % s.getD j 1)))
+
+/-- index of operand `a` read at result index `o` under broadcasting -/
+def bsrc (a : List Nat) (o : List Nat) : List Nat :=
+  let off := o.length - a.length
+  (List.range a.length).map (fun j => if a.getD j 1 = 1 then 0 else o.getD (j + off) 0)
+
+/-- `x + y` with broadcasting (`x` holds `0..`, `y` holds `1000..`) -/
+def vAdd (a b : List Nat) : Option ArrV :=
+  (broadcastShape a b).map (fun r => tabulate r (fun o => iotaAt a 0 (bsrc a o) + iotaAt b 1000 (bsrc b o)))
+
+/-- `np.sum(x, axis)` for one axis -/
+def vSum (s : List Nat) (axis : Int) : Option ArrV :=
+  (normAxis s.length axis).map (fun k =>
+    let r := (s.take k) ++ (s.drop (k + 1))
+    tabulate r (fun o => ((List.range (s.getD k 0)).map (fun t => iotaAt s 0 (o.take k ++ [t] ++ o.drop k))).foldl (· + ·) 0))
+
 end NmVerif.KindRefs
